@@ -49,6 +49,7 @@ type Label struct {
 	J   int         `json:"j,omitempty"`
 	Q   int         `json:"q,omitempty"`
 	IDs [][2]uint64 `json:"ids,omitempty"`
+	P   int         `json:"p,omitempty"` // 1: this reader step and the next label (another reader's step) overlap inside GetLIDs (StepPair)
 }
 
 type Obs struct {
@@ -72,6 +73,7 @@ type event struct {
 	done bool
 	res  any
 	err  error
+	tid  int // reader number + 1 for the end of a reader's request, 0 otherwise
 }
 
 type writer struct {
@@ -91,6 +93,8 @@ type reader struct {
 	holds bool
 	park  chan struct{}
 	fetch bool
+	at    int           // code of the schedule point the request is parked at
+	f     frac.Fraction // list entry the request runs on
 }
 
 type sealer struct {
@@ -299,11 +303,12 @@ func (e *Exec) Step(l Label) Obs {
 	case "SB":
 		r := e.rs[l.T]
 		f, p := r.snap[l.J], e.params[l.Q]
-		r.inop, r.g, r.holds, r.fetch = true, r.snapG[l.J], false, false
+		r.inop, r.g, r.holds, r.fetch, r.f = true, r.snapG[l.J], false, false, f
+		tid := l.T + 1
 		go func() {
 			defer e.recoverOp()
 			qpr, err := fracmanager.NewSearcher(1, fracmanager.SearcherCfg{}).SearchDocs(context.Background(), fracmanager.List{f}, p)
-			e.ev <- event{done: true, res: qpr, err: err}
+			e.ev <- event{done: true, res: qpr, err: err, tid: tid}
 		}()
 		return e.readerWait(r)
 	case "FB":
@@ -372,7 +377,81 @@ func (e *Exec) readerWait(r *reader) Obs {
 	if !ok {
 		return Obs{K: "err", Msg: "hang in reader"}
 	}
+	return e.readerObs(r, x)
+}
+
+// StepPair runs the next step of readers a and b (both parked at search.leaf of a search on the same active
+// fraction) with an overlap forced inside TokenLIDs.GetLIDs: the MID table's lock is held by the driver, so a
+// GetLIDs call that has queued LIDs to merge stalls at mids.GetVals() after it has detached the queue; the second
+// reader is started while the first is stalled, then the lock is released. In the code as it is the first reader
+// stalls INSIDE the merge mutex, the second waits for that mutex, and both answers are those of the two steps
+// executed one after the other - which is what the model computes for the labels [R a; R b].
+func (e *Exec) StepPair(a, b int) (Obs, Obs) {
+	ra, rb := e.rs[a], e.rs[b]
+	ok := a != b && ra.inop && rb.inop && !ra.fetch && !rb.fetch && ra.at == 23 && rb.at == 23
+	var active *frac.Active
+	if ok {
+		active = fracmanager.VerifC07Active(ra.f)
+	}
+	if active == nil {
+		oa := e.Step(Label{K: "R", T: a})
+		return oa, e.Step(Label{K: "R", T: b})
+	}
+	unlock := active.VerifC07LockIDs()
+	short := func() (event, bool) {
+		select {
+		case x := <-e.ev:
+			return x, true
+		case <-time.After(40 * time.Millisecond):
+			return event{}, false
+		}
+	}
+	var oa, ob Obs
+	pendA, pendB := false, false
+	close(ra.park)
+	if x, got := short(); got {
+		oa = e.readerObs(ra, x)
+	} else {
+		pendA = true
+	}
+	close(rb.park)
+	if x, got := short(); got {
+		if x.done && x.tid == a+1 {
+			oa, pendA = e.readerObs(ra, x), false
+			pendB = true
+		} else {
+			ob = e.readerObs(rb, x)
+		}
+	} else {
+		pendB = true
+	}
+	unlock()
+	e.counts = append(e.counts, fmt.Sprintf("getlids-overlap:stalled=%v,%v", pendA, pendB))
+	for pendA || pendB {
+		x, got := e.wait()
+		if !got {
+			return Obs{K: "err", Msg: "hang in GetLIDs overlap"}, Obs{K: "err", Msg: "hang in GetLIDs overlap"}
+		}
+		switch {
+		case x.done && x.tid == a+1 && pendA:
+			oa, pendA = e.readerObs(ra, x), false
+		case x.done && x.tid == b+1 && pendB:
+			ob, pendB = e.readerObs(rb, x), false
+		case pendA && !pendB:
+			oa, pendA = e.readerObs(ra, x), false
+		case pendB && !pendA:
+			ob, pendB = e.readerObs(rb, x), false
+		default: // a schedule point reached while both are outstanding cannot be attributed
+			close(x.park)
+			return Obs{K: "err", Msg: "GetLIDs overlap: ambiguous schedule point " + x.hook}, Obs{K: "err", Msg: "ambiguous"}
+		}
+	}
+	return oa, ob
+}
+
+func (e *Exec) readerObs(r *reader, x event) Obs {
 	if !x.done {
+		r.at = hookCode[x.hook]
 		if !r.holds {
 			r.holds = true
 			e.rl[r.g]++
@@ -381,6 +460,7 @@ func (e *Exec) readerWait(r *reader) Obs {
 		return hookObs(x.hook)
 	}
 	r.inop = false
+	r.at = 0
 	if r.holds {
 		e.rl[r.g]--
 		r.holds = false
